@@ -139,6 +139,20 @@ theorem C15_any_node_prefix (is : List Issuer) (i : Issuer) (hi : i ∈ is) (use
   unfold presentPrefix
   cases useTest <;> cases i.test <;> simp
 
+/-- **… whatever the configured issuer's Go type.** A node whose configuration holds the
+issuer behind the `Issuer` interface only (an application's wrapper reporting the inner
+`IssuerKey()`) still searches the prefix of every order placed with the production CA. -/
+theorem C15_any_node_wrapped (is : List Issuer) (i : Issuer) (hi : i ∈ is) :
+    presentPrefix i false ∈ searchPrefixes (is.map ifaceView) := by
+  unfold searchPrefixes
+  rw [List.mem_flatMap]
+  refine ⟨ifaceView i, List.mem_map.mpr ⟨i, hi, rfl⟩, ?_⟩
+  simp [presentPrefix, ifaceView]
+
+example : presentPrefix ⟨"acme/a".toList, some "acme/t".toList⟩ false ∈
+    searchPrefixes ([⟨"acme/b".toList, none⟩, ⟨"acme/a".toList, some "acme/t".toList⟩].map ifaceView) :=
+  C15_any_node_wrapped _ _ (by simp)
+
 /-- **Exactly while pending.** In every reachable state a challenge is pending iff it is
 in its node's memory and its token file is in storage under its prefix … -/
 theorem C15_exactly_while_pending (E : Env) (S : State) (hR : Reachable E S) (n : Nat) (p : Str)
